@@ -152,6 +152,29 @@ class C09(PipelineProp):
                        "report": (out / rep[0]).read_bytes().decode("latin-1") if rep else None,
                        "csvs": [[n, (out / n).read_bytes().decode("latin-1")] for n in created
                                 if n.endswith(".chromosome.list.csv")]}
+        # what each written sequence file holds: record names and lengths, next to the AGP written with it
+        recs = {}
+        for q in out.iterdir():
+            if q.suffix in (".fa", ".fasta"):
+                cur, lst = None, []
+                for ln in q.read_text().split("\n"):
+                    if ln.startswith(">"):
+                        cur = [ln[1:], 0]
+                        lst.append(cur)
+                    elif cur is not None:
+                        cur[1] += len(ln)
+                comp = q.with_suffix(".agp")
+                ends = []
+                if comp.exists():
+                    for ln in comp.read_text().split("\n"):
+                        f_ = ln.split("\t")
+                        if len(f_) > 2 and not ln.startswith("#"):
+                            if ends and ends[-1][0] == f_[0]:
+                                ends[-1][1] = int(f_[2])
+                            else:
+                                ends.append([f_[0], int(f_[2])])
+                recs[q.name] = {"records": lst, "agp": ends if comp.exists() else None}
+        obs["plan"]["fasta_files"] = recs
         return obs
 
     def gen_case(self, rng):
@@ -162,6 +185,16 @@ class C09(PipelineProp):
                 "prefix": "SUPER_", "pieces": pieces}
 
     def oracle(self, case, obs):
+        if "err" not in obs and "cli" in case:
+            # every sequence file holds exactly the scaffolds of the assembly it is named after (the AGP
+            # written beside it): sequence routed to an assembly must arrive in THAT assembly's file
+            for name, d in (obs.get("plan", {}).get("fasta_files") or {}).items():
+                if d["agp"] is None:
+                    return f"{name} was written without its AGP"
+                if [list(x) for x in d["records"]] != [list(x) for x in d["agp"]]:
+                    return (f"{name} holds the records {d['records']}, the assembly written beside it "
+                            f"({name.rsplit('.', 1)[0]}.agp) has the scaffolds {d['agp']}")
+            return None
         if "err" in obs or case.get("pieces") is None:
             return None
         err = 1 + int(Fraction(case["pretext"]["bpt"]))
